@@ -153,7 +153,8 @@ def build_data(mods, sub, flags, size):
     if bit[6]:
         nts = max(1, ln())
         p['timestep'] = [val(rng, 'e10.4') for _ in range(nts)]
-        p['const_timestep'] = -float(int(math.ceil(nts / 8.0)))
+        # DELTEN = -N announces N lines of step sizes; the last may be short or even empty
+        p['const_timestep'] = -float(int(math.ceil(nts / 8.0)) + (1 if rng.random() < 0.25 else 0))
     else:
         p['const_timestep'] = abs(val(rng, 'e10.3'))
         p['timestep'] = [p['const_timestep']]
@@ -310,6 +311,38 @@ def build_data(mods, sub, flags, size):
     return dat
 
 
+def quantize_xp(dat):
+    """Values of the sections that can go to the extra-precision companion made representable in
+    its 15.8e fields (see xval in build_data)."""
+    def q(x):
+        return None if x is None else float('%.8e' % x)
+    g = dat.grid
+    for rt in g.rocktypelist:
+        for k in ('density', 'porosity', 'conductivity', 'specific_heat', 'compressibility',
+                  'expansivity', 'dry_conductivity', 'tortuosity', 'klinkenberg', 'xkd3', 'xkd4'):
+            if getattr(rt, k, None) is not None:
+                setattr(rt, k, q(getattr(rt, k)))
+        rt.permeability = np.array([q(k) for k in rt.permeability])
+        for d in (rt.relative_permeability, rt.capillarity):
+            if d.get('parameters'):
+                d['parameters'] = [q(v) for v in d['parameters']]
+    for b in g.blocklist:
+        b.volume, b.ahtx, b.pmx = q(b.volume), q(b.ahtx), q(b.pmx)
+        if b.centre is not None:
+            b.centre = np.array([q(v) for v in b.centre])
+    for c in g.connectionlist:
+        c.distance = [q(v) for v in c.distance]
+        c.area, c.dircos, c.sigma = q(c.area), q(c.dircos), q(c.sigma)
+    for d in (dat.relative_permeability, dat.capillarity):
+        if d.get('parameters'):
+            d['parameters'] = [q(v) for v in d['parameters']]
+    for gen in dat.generatorlist:
+        gen.gx, gen.ex, gen.hg, gen.fg = q(gen.gx), q(gen.ex), q(gen.hg), q(gen.fg)
+        gen.time = [q(v) for v in gen.time]
+        gen.rate = [q(v) for v in gen.rate]
+        gen.enthalpy = [q(v) for v in gen.enthalpy]
+
+
 def r_(x):
     return None if x is None else float(x)
 
@@ -362,7 +395,7 @@ def snap_data(dat):
     s['rpcap'] = (rpcap(dat.relative_permeability), rpcap(dat.capillarity))
     s['lineq'] = dict(dat.lineq)
     s['solver'] = dict((k, (v.strip() if isinstance(v, str) else v)) for k, v in dat.solver.items())
-    s['multi'] = dict((k, (v.strip() if isinstance(v, str) else v)) for k, v in dat.multi.items())
+    s['multi'] = dict(dat.multi)        # (the EOS name is compared exactly: the reader strips it)
     ot = dat.output_times
     s['times'] = None if not ot else dict((k, ot.get(k)) for k in (
         'num_times_specified', 'num_times', 'max_timestep', 'time_increment'))
@@ -505,8 +538,8 @@ def compare_data(want, got, cfg, what):
         c.num('eleme', lab + 'volume', w[4], g[4], pe, 'ELEME')
         if binmesh:
             # the binary files hold 0.0 for an absent ahtx / pmx
-            c.num('eleme', lab + 'ahtx', w[5] or 0.0, g[5] or 0.0, 15)
-            c.num('eleme', lab + 'pmx', w[6] or 0.0, g[6] or 0.0, 15)
+            c.num('eleme', lab + 'ahtx', w[5] or 0.0, g[5] or 0.0, 15, 'ELEME')
+            c.num('eleme', lab + 'pmx', w[6] or 0.0, g[6] or 0.0, 15, 'ELEME')
         else:
             c.num('eleme', lab + 'ahtx', w[5], g[5], 4, 'ELEME')
             c.num('eleme', lab + 'pmx', w[6], g[6], 4, 'ELEME')
@@ -525,8 +558,8 @@ def compare_data(want, got, cfg, what):
         c.seq('conne', lab + 'distances', w[5], g[5], pe, 'CONNE')
         c.num('conne', lab + 'area', w[6], g[6], pe, 'CONNE')
         if binmesh:
-            c.num('conne', lab + 'dircos', w[7] or 0.0, g[7] or 0.0, 15)
-            c.num('conne', lab + 'sigma', w[8] or 0.0, g[8] or 0.0, 15)
+            c.num('conne', lab + 'dircos', w[7] or 0.0, g[7] or 0.0, 15, 'CONNE')
+            c.num('conne', lab + 'sigma', w[8] or 0.0, g[8] or 0.0, 15, 'CONNE')
         else:
             c.num('conne', lab + 'dircos', w[7], g[7], 'f7', 'CONNE')
             c.num('conne', lab + 'sigma', w[8], g[8], 3, 'CONNE')
@@ -993,7 +1026,7 @@ class DataStoreMachine(StoreMachine):
             ctx.stats['skip_MUTATE'] += 1
             return
         rng = random.Random(H('mutate', ch[1]))
-        what = ch[2] % 10
+        what = ch[2] % 11
         g = dat.grid
         if what == 0 and g.rocktypelist:
             rt = rng.choice(g.rocktypelist)
@@ -1031,6 +1064,14 @@ class DataStoreMachine(StoreMachine):
             g.reorder(names)
         elif what == 9 and g.blocklist:
             g.demote_block(rng.choice(g.blocklist).name)
+        elif what == 10 and dat.type == 'TOUGH2' and not dat.solver:
+            # the model is given to the other flavour by naming a simulator (SIMUL section)
+            dat.simulator = 'AUTOUGH2.2'
+            quantize_xp(dat)
+            if dat.multi:
+                dat.multi.pop('num_inc', None)
+                dat.multi['eos'] = 'EW'
+            ctx.probes['flavour_switched_to_AUTOUGH2'] += 1
         ctx.fp.append(('M', what))
         ctx.digest.add('MUTATE', what)
 
